@@ -39,6 +39,20 @@ EXTENDS Naturals, Sequences, FiniteSets, TLC, SequencesExt
 \* through Encoding::decode of the CODEPAGE page) -- kept as a configuration TLC has to refute.
 CONSTANT AsWas
 
+\* The NAMED DEVIATIONS of the pinned reader (known_findings.json, X04) are switches of the model: Rep is
+\* the set of deviations taken to be REPAIRED.  Rep = {} is the reader as it is; Trace_Biff5 / MC_Biff5
+\* instantiate the module once per subset (INSTANCE Biff5 WITH Rep <- R), so that a reader in which any
+\* subset of the deviations has been repaired -- including two deviations that meet in one string -- is a
+\* behaviour of the specification, and a third reading is not.
+\*   "ShortString"          parse_string demands 4 bytes of every version (BIFF5: cch + 0 bytes is legal)
+\*   "Biff5Lbl"             the Lbl name is read with an option-flags byte in every version
+\*   "Biff5Format"          FORMAT is read as ifmt, cch(2), flags in every version (BIFF5: ifmt, cch(1), bytes)
+\*   "DbcsByteString"       a byte string under a double-byte page is widened byte by byte (Some(false))
+\*   "UnsupportedCodePage"  a CODEPAGE without decoder fails the workbook (repaired: ASCII as it is; of the
+\*                          high bytes only the alphabet's 437 byte is given a reading)
+CONSTANT Rep
+DevNames == {"ShortString", "Biff5Lbl", "Biff5Format", "DbcsByteString", "UnsupportedCodePage"}
+
 MinN(a, b) == IF a < b THEN a ELSE b
 MaxN(a, b) == IF a > b THEN a ELSE b
 Drop(s, n) == SubSeq(s, n + 1, Len(s))
@@ -53,7 +67,7 @@ FFFD == 65533
 SbPages == {1252, 1251, 1250, 866, 10000}
 DbPages == {932, 936}
 Known   == SbPages \cup DbPages \cup {1200}
-Kind(cp) == IF cp = 1200 THEN "u16" ELSE IF cp \in DbPages THEN "db" ELSE "sb"
+Kind(cp) == IF cp = 1200 THEN "u16" ELSE IF cp \in DbPages THEN "db" ELSE IF cp \in SbPages THEN "sb" ELSE "ascii"
 
 \* high half of the single-byte pages (byte -> code point)
 SbHigh(cp) ==
@@ -95,6 +109,10 @@ DecodeU16(bs, le) == [k \in 1..(Len(bs) \div 2) |-> IF IsSurr(Units(bs, le)[k]) 
 Raw(cp, bs) == CASE Kind(cp) = "u16" -> DecodeU16(bs, TRUE)
                  [] Kind(cp) = "sb"  -> [k \in 1..Len(bs) |-> IF bs[k] < 128 THEN bs[k] ELSE SbHigh(cp)[bs[k]]]
                  [] Kind(cp) = "db"  -> DecodeDb(cp, bs)
+                 \* a page without decoder, once "UnsupportedCodePage" is repaired: what IBM 437 gives for the one
+                 \* high byte of the alphabet; any other high byte has no defined reading here
+                 [] Kind(cp) = "ascii" -> [k \in 1..Len(bs) |-> IF bs[k] < 128 THEN bs[k]
+                                                               ELSE IF cp = 437 /\ bs[k] = 130 THEN 233 ELSE FFFD]
 
 \* encoding_rs Encoding::decode: BOM sniffing first -- a UTF-8, UTF-16LE or UTF-16BE byte order mark
 \* at the start of the bytes is removed and selects the encoding of the rest
@@ -109,7 +127,9 @@ Decode(cp, bs) ==
 (* src/cfb.rs XlsEncoding *)
 \* high_byte(): an explicit flag wins; without one a single-byte encoding decodes the bytes as
 \* they are, every other encoding (UTF-16LE and the double-byte pages) gets Some(false)
-HighByte(enc, hb) == IF hb # "none" THEN hb ELSE IF Kind(enc) = "sb" THEN "none" ELSE "false"
+HighByte(enc, hb) == IF hb # "none" THEN hb
+                     ELSE IF Kind(enc) \in {"sb", "ascii"} \/ (Kind(enc) = "db" /\ "DbcsByteString" \in Rep) THEN "none"
+                     ELSE "false"
 HB(b) == IF b % 2 = 1 THEN "true" ELSE "false"
 
 \* decode_to(stream, len, s, high_byte): `arg` is what is handed to the decoder -- UTF-16LE when the caller
@@ -181,21 +201,31 @@ ShortString(d, enc, biff) ==
 
 \* parse_string: cch is two bytes; every version before BIFF8 has no option-flags byte
 LongString(d, enc, biff) ==
-  IF Len(d) < 4 THEN Str("Len(string)", <<>>, <<>>)
+  IF Len(d) < (IF biff # "Biff8" /\ "ShortString" \in Rep THEN 2 ELSE 4) THEN Str("Len(string)", <<>>, <<>>)
   ELSE LET cch == U16(d, 1)
            r   == IF biff = "Biff8" THEN DecodeTo(enc, Drop(d, 3), cch, HB(d[3]))
                   ELSE DecodeTo(enc, Drop(d, 2), cch, "none")
        IN Str("", r.text, <<r.call>>)
 
 \* parse_format: the same layout for every version (ifmt, cch u16, flags)
-ParseFormat(d, enc) ==
-  IF Len(d) < 5 THEN [err |-> "Len(format)", idx |-> 0, text |-> <<>>, calls |-> <<>>]
+ParseFormat(d, enc, biff) ==
+  IF biff # "Biff8" /\ "Biff5Format" \in Rep
+  THEN IF Len(d) < 3 THEN [err |-> "Len(format)", idx |-> 0, text |-> <<>>, calls |-> <<>>]
+       ELSE LET r == DecodeTo(enc, Drop(d, 3), d[3], "none")
+            IN [err |-> "", idx |-> U16(d, 1), text |-> r.text, calls |-> <<r.call>>]
+  ELSE IF Len(d) < 5 THEN [err |-> "Len(format)", idx |-> 0, text |-> <<>>, calls |-> <<>>]
   ELSE LET r == DecodeTo(enc, Drop(d, 5), U16(d, 3), HB(d[5]))
        IN [err |-> "", idx |-> U16(d, 1), text |-> r.text, calls |-> <<r.call>>]
 
 \* the Lbl arm: the same layout for every version (name = XLUnicodeStringNoCch at offset 14)
-ParseLbl(d, enc) ==
-  IF Len(d) < 15 THEN Str("Len(Lbl)", <<>>, <<>>)
+ParseLbl(d, enc, biff) ==
+  IF biff # "Biff8" /\ "Biff5Lbl" \in Rep
+  THEN IF Len(d) < 14 THEN Str("Len(Lbl)", <<>>, <<>>)
+       ELSE LET cch == d[4]
+                cce == U16(d, 5)
+            IN IF Len(d) < MaxN(14 + cch, cce) THEN Str("Len(Lbl)", <<>>, <<>>)
+               ELSE LET r == DecodeTo(enc, Drop(d, 14), cch, "none") IN Str("", r.text, <<r.call>>)
+  ELSE IF Len(d) < 15 THEN Str("Len(Lbl)", <<>>, <<>>)
   ELSE LET cch == d[4]
            cce == U16(d, 5)
        IN IF Len(d) < MaxN(15 + cch, cce) THEN Str("Len(Lbl)", <<>>, <<>>)
@@ -232,9 +262,9 @@ GlobalsRec(g, rec) ==
            d   == rec[2]
   IN CASE typ = 47   -> Fail(g, "Password")                                    \* 0x002F FilePass
        [] typ = 66   -> IF Len(d) < 2 THEN Fail(g, "Len(CodePage)")            \* 0x0042 CodePage
-                        ELSE IF U16(d, 1) \notin Known THEN Fail(g, "CodePageNotFound")
+                        ELSE IF U16(d, 1) \notin Known /\ "UnsupportedCodePage" \notin Rep THEN Fail(g, "CodePageNotFound")
                         ELSE [g EXCEPT !.enc = U16(d, 1)]
-       [] typ = 1054 -> LET r == ParseFormat(d, g.enc)                         \* 0x041E Format
+       [] typ = 1054 -> LET r == ParseFormat(d, g.enc, g.biff)                         \* 0x041E Format
                         IN IF r.err # "" THEN Fail(g, r.err)
                            ELSE [g EXCEPT !.fmts = Append(@, <<r.idx, r.text>>), !.calls = @ \o r.calls]
        [] typ = 224  -> IF Len(d) < 4 THEN Fail(g, "Len(xf)")                  \* 0x00E0 XF
@@ -249,7 +279,7 @@ GlobalsRec(g, rec) ==
                                                !.calls = @ \o r.calls]
        [] typ = 2057 -> LET b == ParseBof(d)                                   \* 0x0809 BOF
                         IN IF b.err # "" THEN Fail(g, b.err) ELSE [g EXCEPT !.biff = b.biff]
-       [] typ = 24   -> LET r == ParseLbl(d, g.enc)                            \* 0x0018 Lbl
+       [] typ = 24   -> LET r == ParseLbl(d, g.enc, g.biff)                            \* 0x0018 Lbl
                         IN IF r.err # "" THEN Fail(g, r.err)
                            ELSE [g EXCEPT !.defs = Append(@, r.text), !.calls = @ \o r.calls]
        [] typ = 252  -> LET r == ParseSst(d, g.enc)                            \* 0x00FC SST
